@@ -24,8 +24,71 @@ pub fn neutralise(rule: &str, prop: &str, case: &J) -> Option<J> {
 			}
 			changed.then(|| sc.to_json())
 		}
+		"yaml_position_after_flip" => {
+			// C09 library runs only: reader supply with detection, YAML selected, both the
+			// detected and the explicit run fail, and their texts are equal once
+			// line/column/position numbers are removed.
+			if prop != "C09" || case["kind"].as_str() != Some("lib") {
+				return None;
+			}
+			let sc = Scenario::from_json(case)?;
+			let c = sc.calls.first()?;
+			if !c.reader || c.from.is_some() || c.rfault.is_some() {
+				return None;
+			}
+			let o1 = crate::exec::run(&sc);
+			let mut s2 = sc.clone();
+			s2.calls[0].from = Some(Fmt::Yaml);
+			let o2 = crate::exec::run(&s2);
+			let (v1, v2) = (o1.verdict(0), o2.verdict(0));
+			if !(v1.is_err() && v2.is_err()) || v1.text() == v2.text() || strip_positions(v1.text()) != strip_positions(v2.text()) {
+				return None;
+			}
+			let mut n = sc.clone();
+			n.calls[0].reader = false;
+			n.calls[0].sched = crate::simio::Sched::whole();
+			let mut j = n.to_json();
+			j["kind"] = serde_json::json!("lib");
+			Some(j)
+		}
 		_ => None,
 	}
+}
+
+/// Removes " at line N column M" and " at position N" from an error text.
+pub fn strip_positions(t: &str) -> String {
+	let mut out = String::new();
+	let b: Vec<char> = t.chars().collect();
+	let mut i = 0;
+	let starts = |i: usize, pat: &str| -> bool { b[i..].iter().take(pat.chars().count()).copied().eq(pat.chars()) };
+	let skip_digits = |mut i: usize| -> usize {
+		while i < b.len() && b[i].is_ascii_digit() {
+			i += 1;
+		}
+		i
+	};
+	while i < b.len() {
+		if starts(i, " at line ") {
+			let j = skip_digits(i + 9);
+			if j > i + 9 && starts(j, " column ") {
+				let k = skip_digits(j + 8);
+				if k > j + 8 {
+					i = k;
+					continue;
+				}
+			}
+		}
+		if starts(i, " at position ") {
+			let j = skip_digits(i + 13);
+			if j > i + 13 {
+				i = j;
+				continue;
+			}
+		}
+		out.push(b[i]);
+		i += 1;
+	}
+	out
 }
 
 /// Inserts a blank after every top-level JSON scalar (number, true, false,
